@@ -1086,8 +1086,10 @@ harness(void) {
     if (w_cutstop) VP_WITNESS("file-cut-by-should-stop-before");
     if (w_cutsize) VP_WITNESS("file-cut-by-size");
 #endif
+#if VP_N >= 1
     if (w_tomb) VP_WITNESS("dropped-tombstone");
     if (w_kepttomb) VP_WITNESS("kept-tombstone-because-deeper-data");
+#endif
     if (g_outputs == 0) VP_WITNESS("everything-dropped-no-output");
   }
 #if VP_FAULTS
